@@ -96,6 +96,7 @@ def scan_harnesses():
                 "panic": meta.get("panic", "undecided"),
                 "replay": meta.get("replay", "native"),
                 "cbmc_args": [x for x in meta.get("cbmc_args", "").split(";") if x],
+                "vacuous_ok": [x for x in meta.get("vacuous_ok", "").split(",") if x],
                 "unwindset": [tuple(x.rsplit(":", 1)) for x in meta.get("unwindset", "").split(",") if ":" in x],
                 "obligations": sorted(set(re.findall(r'"(C\d\d/[^"\s]+)"', btxt))),
                 "stubs": re.findall(r"kani::stub(?:_verified)?\(([^)]*)\)", atxt),
@@ -277,7 +278,9 @@ def classify(h, r):
         if is_cover:
             ok = sts <= {"SATISFIED"}
             st = "discharged" if ok else "cover-unsatisfied"
-            if not ok:
+            if not ok and name in h.get("vacuous_ok", []):
+                st = "unreachable-in-this-instance"
+            elif not ok:
                 vac.append(name)
         elif "FAILURE" in sts:
             st = "failed"
@@ -288,6 +291,10 @@ def classify(h, r):
             # an assert replicated by inlining may be unreachable in some copies
             if "SUCCESS" in sts:
                 st = "discharged"
+            elif name in h.get("vacuous_ok", []):
+                # declared in the harness annotation: this instance (e.g. the empty bucket) cannot
+                # reach the assertion; other instances of the same check do
+                st = "unreachable-in-this-instance"
             else:
                 st = "unreachable"
                 vac.append(name)
@@ -297,7 +304,7 @@ def classify(h, r):
         res["obligations"].append({"name": name, "status": st, "engine": "kani/cbmc+" + str(r.get("solver")),
                                    "class": h["class"] + (f"({h['bound']})" if h["bound"] else ""),
                                    "harness": h["name"], "kind": "cover" if is_cover else "assert"})
-    missing = expected - seen
+    missing = expected - seen - set(h.get("vacuous_ok", []))
     for name in sorted(missing):
         res["obligations"].append({"name": name, "status": "missing", "harness": h["name"]})
     # safety / other checks
